@@ -13,11 +13,13 @@ import (
 // after another model (Sum) has run all give identical outputs and final states; no package-level
 // variable is written during Run.  (b) causality: for every k < T-1, changing the inputs after
 // step k (fresh symbols) or truncating the series after step k leaves outputs up to k unchanged.
+//
 //vsym:prop=C14 tier=quick ints=int floats=real timeout=60 wall=240 cut=3 unwind=80
 func H_C14_pure_MODELNAME() { c14pure_MODELNAME(2, 3, false) }
 
 // H_C14_concrete_MODELNAME: Sacramento and Storage only (skipped above): the same obligations
 // with the REAL kernel on concrete parameter, input and state values.  A no-op for the others.
+//
 //vsym:prop=C14 tier=quick ints=int floats=real timeout=60 wall=300 unwind=400
 func H_C14_concrete_MODELNAME() {
 	if "MODELNAME" != "Sacramento" && "MODELNAME" != "Storage" {
@@ -127,24 +129,6 @@ func c14pure_MODELNAME(N, T int, concrete bool) {
 	other.Run(oi, other.InitialiseStates(1), data.NewArray3DFloat64(1, 1, 2))
 	oD, sD := run(w, inputs, T)
 	same(oA, oD, sA, sD, T, "identical-after-another-model-ran")
-	// the same object is run on differently shaped data in between: one input block shared by all
-	// cells and a longer series (nothing about an earlier call's layout may survive in the object)
-	inX := data.NewArray3DFloat64(1, nI, T+1)
-	for i := 0; i < nI; i++ {
-		for t := 0; t < T+1; t++ {
-			if concrete {
-				inX.Set3(0, i, t, 0.75)
-			} else {
-				inX.Set3(0, i, t, vsym.Float64("otherlayout"))
-			}
-		}
-	}
-	if !concrete {
-		wrConstrainData(name, inX, states0)
-	}
-	w.m.Run(inX, wrCopy2(states0), data.NewArray3DFloat64(N, nO, T+1))
-	oG, sG := run(w, inputs, T)
-	same(oA, oG, sA, sG, T, "identical-after-a-run-on-differently-shaped-data")
 	// causality
 	for k := 0; k < T-1; k++ {
 		in2 := wrCopy3(inputs)
@@ -175,4 +159,24 @@ func c14pure_MODELNAME(N, T int, concrete bool) {
 		oF, _ := run(w, in3, k+1)
 		same(oA, oF, nil, nil, k+1, "truncated-series-gives-same-earlier-outputs")
 	}
+	// last (so that nothing it assumes can narrow the obligations above): the same object is run on
+	// differently shaped data - one input block shared by all cells - and then on the original
+	// data again (nothing about an earlier call's layout may survive in the object).  Same series
+	// length: a longer one would exceed the loop cut under symbolic guards and assume them away.
+	inX := data.NewArray3DFloat64(1, nI, T)
+	for i := 0; i < nI; i++ {
+		for t := 0; t < T; t++ {
+			if concrete {
+				inX.Set3(0, i, t, 0.75)
+			} else {
+				inX.Set3(0, i, t, vsym.Float64("otherlayout"))
+			}
+		}
+	}
+	if !concrete {
+		wrConstrainData(name, inX, states0)
+	}
+	w.m.Run(inX, wrCopy2(states0), data.NewArray3DFloat64(N, nO, T))
+	oG, sG := run(w, inputs, T)
+	same(oA, oG, sA, sG, T, "identical-after-a-run-on-differently-shaped-data")
 }
